@@ -60,6 +60,7 @@ type vRelaySc struct {
 	cChunk   int
 	uChunk   int
 	abort    string // "", client, upstream
+	upNet    string // "" = tcp, "unix": transport of the upstream connections
 	seed     uint64
 }
 
@@ -214,17 +215,37 @@ func vRunRelay(ctx caddy.Context, sc vRelaySc) (res vRelayRes) {
 	ups := make([]*upSrv, n)
 	var addrs []string
 	var upWG sync.WaitGroup
+	sockDir := ""
 	release := make(chan struct{}) // closed at the very end: upstream servers close their conns
 	kick := make(chan struct{})    // closed when a stalled scenario is released: whoever waits for EOF stops waiting
 	for i := 0; i < n; i++ {
-		ln, err := net.Listen("tcp", "127.0.0.1:0")
+		var ln net.Listener
+		var err error
+		dialAddr := ""
+		if sc.upNet == "unix" {
+			if sockDir == "" {
+				if sockDir, err = os.MkdirTemp("", "vc03"); err != nil {
+					res.err = err.Error()
+					return
+				}
+				defer os.RemoveAll(sockDir)
+			}
+			path := fmt.Sprintf("%s/u%d.sock", sockDir, i)
+			ln, err = net.Listen("unix", path)
+			dialAddr = "unix/" + path
+		} else {
+			ln, err = net.Listen("tcp", "127.0.0.1:0")
+			if err == nil {
+				dialAddr = ln.Addr().String()
+			}
+		}
 		if err != nil {
 			res.err = err.Error()
 			return
 		}
 		u := &upSrv{ln: ln, rec: newVRecorder(), accepted: make(chan struct{}), port: vPort(ln.Addr())}
 		ups[i] = u
-		addrs = append(addrs, ln.Addr().String())
+		addrs = append(addrs, dialAddr)
 		upWG.Add(1)
 		go func(i int, u *upSrv) {
 			defer upWG.Done()
@@ -240,7 +261,9 @@ func vRunRelay(ctx caddy.Context, sc vRelaySc) (res vRelayRes) {
 			if sc.abort == "upstream" && i == 0 {
 				_ = vWriteChunks(c, sc.uPayload[i], sc.uChunk, urng, len(sc.uPayload[i])/2)
 				time.Sleep(20 * time.Millisecond)
-				_ = c.(*net.TCPConn).SetLinger(0)
+				if tc, ok := c.(*net.TCPConn); ok {
+					_ = tc.SetLinger(0)
+				}
 				_ = c.Close()
 				return
 			}
@@ -251,7 +274,7 @@ func vRunRelay(ctx caddy.Context, sc vRelaySc) (res vRelayRes) {
 				case <-kick:
 				}
 			}
-			_ = c.(*net.TCPConn).CloseWrite()
+			_ = c.(interface{ CloseWrite() error }).CloseWrite()
 			<-release
 			_ = c.Close()
 		}(i, u)
@@ -330,7 +353,21 @@ func vRunRelay(ctx caddy.Context, sc vRelaySc) (res vRelayRes) {
 			_ = cc.Close()
 			return
 		}
-		_ = vWriteChunks(cc, sc.cPayload, sc.cChunk, rng, -1)
+		if sc.abort == "upstream" {
+			// keep sending after the upstream has been reset, so that a write to it fails
+			_ = vWriteChunks(cc, sc.cPayload, sc.cChunk, rng, len(sc.cPayload)/2)
+			time.Sleep(150 * time.Millisecond)
+			for k := 0; k < 4; k++ {
+				off := len(sc.cPayload)/2 + k*(len(sc.cPayload)-len(sc.cPayload)/2)/4
+				end := len(sc.cPayload)/2 + (k+1)*(len(sc.cPayload)-len(sc.cPayload)/2)/4
+				if _, err := cc.Write(sc.cPayload[off:end]); err != nil {
+					break
+				}
+				time.Sleep(15 * time.Millisecond)
+			}
+		} else {
+			_ = vWriteChunks(cc, sc.cPayload, sc.cChunk, rng, -1)
+		}
 		if sc.cAfter {
 			select {
 			case <-crec.end:
@@ -393,7 +430,18 @@ func vRunRelay(ctx caddy.Context, sc vRelaySc) (res vRelayRes) {
 			s.upEOF = append(s.upEOF, e)
 			select {
 			case <-u.accepted:
-				s.closed = append(s.closed, !owned[[2]int{u.proxyPort, u.port}])
+				if sc.upNet == "unix" {
+					// the proxy's end of a unix socket has no name to look up: closed = Handle returned and
+					// the upstream's reads have ended
+					select {
+					case <-u.rec.end:
+						s.closed = append(s.closed, s.returned)
+					default:
+						s.closed = append(s.closed, false)
+					}
+				} else {
+					s.closed = append(s.closed, !owned[[2]int{u.proxyPort, u.port}])
+				}
 			default:
 				s.closed = append(s.closed, true) // never dialled
 			}
@@ -507,7 +555,7 @@ func (sc vRelaySc) describe() map[string]any {
 	}
 	return map[string]any{"peers": sc.peers, "client_bytes": len(sc.cPayload), "prefetched": sc.pre, "upstream_bytes": ul,
 		"client_fin_after_eof": sc.cAfter, "upstream_fin_after_eof": sc.uAfter, "wrapper": sc.wrapper,
-		"client_chunk": sc.cChunk, "upstream_chunk": sc.uChunk, "abort": sc.abort, "seed": sc.seed}
+		"client_chunk": sc.cChunk, "upstream_chunk": sc.uChunk, "abort": sc.abort, "upstream_network": nonEmpty(sc.upNet, "tcp"), "seed": sc.seed}
 }
 
 func bytesEq(a, b []byte) bool { return string(a) == string(b) }
@@ -535,6 +583,15 @@ func vRelayOracle(sc vRelaySc, r vRelayRes) [][2]string {
 			if !isPrefix(proj[i], sc.uPayload[i]) {
 				add("C03:relay:client-bytes-differ", fmt.Sprintf("after an abrupt close the client holds bytes from upstream %d that are not a prefix of its stream", i))
 			}
+			// the client->upstream direction has ended (with an error): every upstream that is still
+			// there must observe end-of-stream without anybody else having to act
+			if sc.uAfter[i] && !(sc.abort == "upstream" && i == 0) && !r.s1.upEOF[i] {
+				add("C03:halfclose:upstream-eof-missing", fmt.Sprintf("the client->upstream direction ended with an error (%s reset) but upstream %d, waiting for end-of-stream, did not observe it", sc.abort, i))
+			}
+		}
+		if r.stalled {
+			add("C03:cleanup:handle-never-returned", "after the abrupt close Handle did not return although every remaining peer finishes as soon as it sees end-of-stream")
+			return f
 		}
 	} else {
 		for i := range fin.up {
@@ -592,11 +649,14 @@ func vRelayCase(out *vOut, sc vRelaySc, r vRelayRes) {
 		order = "client-first"
 	}
 	cls := fmt.Sprintf("%dpeer/%s/%s/c%s-u%s", sc.peers, nonEmpty(sc.wrapper, "direct"), order, vSizeBucket(len(sc.cPayload)), vSizeBucket(maxU))
+	if sc.upNet != "" {
+		cls = sc.upNet + "/" + cls
+	}
 	proj := vProjCli(s.cli, sc.peers)
 	switch {
 	case sc.abort != "":
-		out.Case(fmt.Sprintf("RAbort %d %s %s %s %s %s %s", sc.peers, cHex(sc.cPayload), vHexList(sc.uPayload), vHexList(r.s2.up), vHexList(vProjCli(r.s2.cli, sc.peers)),
-			cBool(r.s2.returned), vBoolList(r.s2.closed)), "abort-"+sc.abort+"/"+cls, true, sc.describe())
+		out.Case(fmt.Sprintf("RAbort %d %s %s %s %s %s %s", sc.peers, cHex(sc.cPayload), vHexList(sc.uPayload), vHexList(r.s1.up), vHexList(vProjCli(r.s1.cli, sc.peers)),
+			cBool(r.s1.returned), vBoolList(r.s1.closed)), "abort-"+sc.abort+"/"+cls, true, sc.describe())
 	case len(sc.cPayload) <= 1200 && maxU <= 1200:
 		out.Case(fmt.Sprintf("RExact %d %d %s %s %s %s %s %s %s %s %s %s %s", sc.peers, sc.pre, cHex(sc.cPayload), vHexList(sc.uPayload), cBool(sc.cAfter), vBoolList(sc.uAfter),
 			vChainCoq(sc.wrapper), vHexList(s.up), vHexList(proj), cBool(s.cliEOF), vBoolList(s.upEOF), cBool(s.returned), vBoolList(s.closed)), cls, nt, sc.describe())
@@ -773,6 +833,31 @@ func TestVerifC03(t *testing.T) {
 	for i := 0; i < 6; i++ {
 		ab := []string{"client", "upstream"}[i%2]
 		scs = append(scs, mk(1+i%2, 600+rng.Intn(1000), rng.Intn(32), []int{500 + rng.Intn(1000)}, false, false, wrappers[i%2], 50, 50, ab))
+	}
+	// 3b. abrupt closes while upstreams idle, waiting for end-of-stream before they finish: the
+	// client->upstream direction ends with an error (client reset / a write to a reset peer fails)
+	for i := 0; i < 6; i++ {
+		if i%2 == 0 {
+			scs = append(scs, mk(1+i/2, 600+rng.Intn(1000), rng.Intn(32), []int{300 + rng.Intn(600)}, false, true, wrappers[(i/2)%2], 50, 0, "client"))
+		} else {
+			sc := mk(2+i/4, 4000+rng.Intn(4000), 0, []int{400 + rng.Intn(400)}, false, true, "", 200, 0, "upstream")
+			scs = append(scs, sc)
+		}
+	}
+	// 3c. upstream peers over unix sockets (no WriteTo/ReadFrom fast path in io.Copy), 2..3 peers
+	// streaming large payloads at the same time
+	for i := 0; i < 5; i++ {
+		peers := 2 + i%2
+		ul := []int{1 << 20, 700000 + rng.Intn(600000), 300000 + rng.Intn(900000)}
+		if i == 4 {
+			ul = []int{900, 700, 500}
+		}
+		sc := mk(peers, []int{0, 3000, 70000, 1 << 20, 1000}[i], 0, ul, i == 1, i == 2, "", 0, []int{0, 0, 65536, 0, 100}[i], "")
+		sc.upNet = "unix"
+		if i == 1 {
+			sc.pre = 16
+		}
+		scs = append(scs, sc)
 	}
 	// 4. random scenarios
 	nrand := vN(40)
